@@ -308,7 +308,11 @@ TExtra ==
      \* and is not in the property's list; channel_ready and the funding broadcast are)
      /\ (r.ev = "msg" /\ r.kind = "channel_ready") => G9(<<r.from, r.chan>> \notin fw.newInfl)
 
-TraceNext == TExtra \/ TOpen \/ TMsg \/ TDeliver \/ TPersist \/ TComplete \/ TSend \/ TDisconnect \/ TReconnect
+\* C12: the scorer survives serialization (same bytes, same answers), truncations are refused
+TScorer == IsEvent("rt_scorer") /\ Stutter
+           /\ G12(R.read_ok /\ R.answers_equal /\ R.truncated_refused)   \* (byte equality is not required: hash-map order)
+
+TraceNext == TScorer \/ TExtra \/ TOpen \/ TMsg \/ TDeliver \/ TPersist \/ TComplete \/ TSend \/ TDisconnect \/ TReconnect
              \/ TEvent \/ TOther \/ TMgrSnap \/ TCrash \/ TBroadcast \/ TProj
 
 TraceSpec == TraceInit /\ [][TraceNext]_tvars
